@@ -1313,7 +1313,7 @@ def recover_loops(fn: ast.AST) -> int:
 BIN_OPS = {"add": ast.Add, "concat": ast.Add, "sub": ast.Sub, "mul": ast.Mult, "truediv": ast.Div, "floordiv": ast.FloorDiv, "mod": ast.Mod, "pow": ast.Pow,
            "and_": ast.BitAnd, "or_": ast.BitOr, "xor": ast.BitXor, "lshift": ast.LShift, "rshift": ast.RShift, "matmul": ast.MatMult}
 CMP_OPS = {"eq": ast.Eq, "ne": ast.NotEq, "lt": ast.Lt, "le": ast.LtE, "gt": ast.Gt, "ge": ast.GtE, "is_": ast.Is, "is_not": ast.IsNot}
-_FUNCTIONAL_NAMES = set(BIN_OPS) | set(CMP_OPS) | {"contains", "not_", "neg", "truth", "getitem", "map", "filter", "next", "any", "reduce", "chain", "format", "getattr", "list"}
+_FUNCTIONAL_NAMES = set(BIN_OPS) | set(CMP_OPS) | {"contains", "not_", "neg", "truth", "getitem", "map", "filter", "next", "any", "reduce", "chain", "format", "getattr", "list", "str"}
 PURE_MAKERS = {"functools.partial", "operator.itemgetter", "operator.attrgetter", "operator.methodcaller"}
 _fresh = [0]
 
@@ -1601,6 +1601,8 @@ def defunctionalize_call(n: ast.Call, resolve) -> Optional[ast.AST]:
     if q == "builtins.format" and not n.keywords and 1 <= len(a) <= 2 and (len(a) == 1 or (isinstance(a[1], ast.Constant) and isinstance(a[1].value, str))):
         spec = ast.JoinedStr(values=[ast.Constant(value=a[1].value)]) if len(a) == 2 and a[1].value else None
         return ast.JoinedStr(values=[ast.FormattedValue(value=a[0], conversion=-1, format_spec=spec)])
+    if q == "builtins.str" and not n.keywords and len(a) == 1 and isinstance(a[0], ast.Constant) and isinstance(a[0].value, str):
+        return a[0]
     if q == "builtins.getattr" and not n.keywords and len(a) == 2 and isinstance(a[1], ast.Constant) and isinstance(a[1].value, str) and a[1].value.isidentifier():
         return ast.Attribute(value=a[0], attr=a[1].value, ctx=ast.Load())
     if q == "builtins.list" and not n.keywords and len(a) == 1 and isinstance(a[0], ast.GeneratorExp):
@@ -2298,10 +2300,17 @@ def scalarise_records(fn: ast.AST, module_assigns: Dict[str, ast.AST]) -> int:
         loads, stores = names_in(fn, t)
         if len(stores) != 1 or not loads:
             continue
-        if not all(isinstance(up.get(id(ld)), ast.Attribute) and up[id(ld)].value is ld and up[id(ld)].attr in fields and isinstance(up[id(ld)].ctx, ast.Load) for ld in loads):
+        def unpacked(ld):
+            p = up.get(id(ld))
+            return isinstance(p, ast.Assign) and p.value is ld and len(p.targets) == 1 and isinstance(p.targets[0], (ast.Tuple, ast.List)) and len(p.targets[0].elts) == len(fields) \
+                and not any(isinstance(x, ast.Starred) for x in p.targets[0].elts)
+        if not all(unpacked(ld) or (isinstance(up.get(id(ld)), ast.Attribute) and up[id(ld)].value is ld and up[id(ld)].attr in fields and isinstance(up[id(ld)].ctx, ast.Load)) for ld in loads):
             continue
         for ld in loads:
             p = up[id(ld)]
+            if unpacked(ld):
+                p.value = ast.copy_location(ast.Tuple(elts=[ast.Name(id=f"{t}__{f}", ctx=ast.Load()) for f in fields], ctx=ast.Load()), ld)
+                continue
             replace_child(up.get(id(p)), p, ast.copy_location(ast.Name(id=f"{t}__{p.attr}", ctx=ast.Load()), p))
         new = [ast.copy_location(ast.Assign(targets=[ast.Name(id=f"{t}__{f}", ctx=ast.Store())], value=a), st) for f, a in zip(fields, st.value.args)]
         parent = up.get(id(st))
@@ -2315,3 +2324,50 @@ def scalarise_records(fn: ast.AST, module_assigns: Dict[str, ast.AST]) -> int:
         n += 1
         up = parents(fn)
     return n
+
+
+def fold_dict_building(fn: ast.AST) -> int:
+    """S17: `d = {...}` ; `d.update(())` ; `d.update((("k", v),))` ; `d["k2"] = w`  ->  `d = {..., "k": v, "k2": w}` (statements directly
+    after the display that add constant keys it does not have yet; evaluation order is the textual order either way)."""
+    if not isinstance(fn, (ast.FunctionDef, ast.AsyncFunctionDef)):
+        return 0
+    esc = escaping_names(fn) | params_of(fn)
+    count = [0]
+
+    def block(stmts):
+        out: List[ast.stmt] = []
+        for st in stmts:
+            if isinstance(st, FUNC):
+                out.append(st)
+                continue
+            for fld in ("body", "orelse", "finalbody"):
+                if getattr(st, fld, None):
+                    setattr(st, fld, block(getattr(st, fld)))
+            for h in getattr(st, "handlers", []) or []:
+                h.body = block(h.body)
+            prev = out[-1] if out else None
+            d = plain_assign(prev) if prev is not None else None
+            if d and d not in esc and isinstance(prev.value, ast.Dict) and all(isinstance(k, ast.Constant) for k in prev.value.keys):
+                have = {repr(k.value) for k in prev.value.keys}
+                pairs = None
+                if isinstance(st, ast.Expr) and isinstance(st.value, ast.Call) and isinstance(st.value.func, ast.Attribute) and st.value.func.attr == "update" \
+                        and isinstance(st.value.func.value, ast.Name) and st.value.func.value.id == d and len(st.value.args) == 1 and not st.value.keywords:
+                    a = st.value.args[0]
+                    if isinstance(a, (ast.Tuple, ast.List)) and all(isinstance(x, (ast.Tuple, ast.List)) and len(x.elts) == 2 and isinstance(x.elts[0], ast.Constant) for x in a.elts):
+                        pairs = [(x.elts[0], x.elts[1]) for x in a.elts]
+                    elif isinstance(a, ast.Dict) and all(isinstance(k, ast.Constant) for k in a.keys):
+                        pairs = list(zip(a.keys, a.values))
+                elif isinstance(st, ast.Assign) and len(st.targets) == 1 and isinstance(st.targets[0], ast.Subscript) and isinstance(st.targets[0].value, ast.Name) \
+                        and st.targets[0].value.id == d and isinstance(st.targets[0].slice, ast.Constant):
+                    pairs = [(st.targets[0].slice, st.value)]
+                if pairs is not None and not any(repr(k.value) in have for k, _ in pairs) and len({repr(k.value) for k, _ in pairs}) == len(pairs) \
+                        and not any(isinstance(n, ast.Name) and n.id == d for _, v in pairs for n in ast.walk(v)):
+                    for k, v in pairs:
+                        prev.value.keys.append(k)
+                        prev.value.values.append(v)
+                    count[0] += 1
+                    continue
+            out.append(st)
+        return out
+    fn.body = block(fn.body)
+    return count[0]
